@@ -289,7 +289,8 @@ func (s *Syncer[H]) findTailHeight(ctx context.Context, oldTail, head H) (uint64
 
 	// header times may be spaced tighter than the block time, so the estimate may lie above the
 	// first header of the window: walk down to it, so that no header within the window is pruned
-	for newTailHeight > oldTail.Height()+1 && newTailHeight <= s.store.Height() {
+	// (the header below the estimate is read: it has to be a stored one, the estimate itself may lie right above the store's head)
+	for newTailHeight > oldTail.Height()+1 && newTailHeight-1 <= s.store.Height() {
 		prev, err := s.store.GetByHeight(ctx, newTailHeight-1)
 		if err != nil {
 			return 0, fmt.Errorf(
